@@ -83,9 +83,10 @@ def check(pid, tier, scratch, replay):
     runs.append(dict(cfg='MC_ReadIso.cfg', distinct=m.get('distinct')))
     runs.append(dict(cfg='MC_ReadIso_asfound.cfg', violated=a['violated'], note='live reads (no snapshot): the model itself admits mixed answers'))
     jobs = []
-    for cfg, mod, extra, n in (('Gen_Pay.cfg', 'MC_Pay.tla', {}, 40 if quick else 150), ('Gen_Stake.cfg', 'MC_Stake.tla', props.STAKE_X, 20 if quick else 80),
-                               ('Gen_Imp.cfg', 'MC_Imp.tla', {}, 20 if quick else 80)):
-        o = {'GenDepth': '12', 'GenRandom': 'TRUE', 'MaxQ': '4'}
+    # the fourth universe has a coinbase maturity of 3, so that immature coins exist at most boundaries
+    for cfg, mod, extra, n, cbmat in (('Gen_Pay.cfg', 'MC_Pay.tla', {}, 40 if quick else 150, '1'), ('Gen_Stake.cfg', 'MC_Stake.tla', props.STAKE_X, 20 if quick else 80, '1'),
+                                      ('Gen_Imp.cfg', 'MC_Imp.tla', {}, 20 if quick else 80, '1'), ('Gen_Pay.cfg', 'MC_Pay.tla', {}, 40 if quick else 150, '3')):
+        o = {'GenDepth': '12', 'GenRandom': 'TRUE', 'MaxQ': '4', 'CbMat': cbmat}
         r = vlib.tlc(cfg, mod, scratch, overrides=o, simulate=dict(num=n * 4, depth=13, seed=vlib.seed() * 11 + len(runs)))
         vlib.require_clean(r, 'generator ' + cfg)
         u = dict(r['universe'])
@@ -101,12 +102,18 @@ def check(pid, tier, scratch, replay):
             for k in (rnd.sample(range(2, 40), 3) if quick else range(2, 60, 4)):
                 jobs.append(dict(u=u, h=x, mode='write-overlap', opt=dict(park=k), src=cfg))
         for h in hs:
-            for api in ('balance', 'utxo'):
+            for api in ('balance', 'utxo', 'build'):
                 ks = list(range(1, 15)) if not quick else rnd.sample(range(1, 15), 3)
+                if api == 'build':
+                    # a building call has few storage calls before its coins are read: every early position,
+                    # in the universe with immature coins
+                    ks = list(range(1, 7)) if cbmat != '1' else (ks if not quick else ks[:1])
                 for k in ks:
                     jobs.append(dict(u=u, h=h, mode='readiso', opt=dict(api=api, park=k), src=cfg))
-    if quick and len(jobs) > 480:
-        jobs = rnd.sample(jobs, 480)
+    if quick and len(jobs) > 900:
+        keep = [j for j in jobs if j['opt'].get('api') == 'build' and j['u'].get('cbmat') != 1]
+        rest = [j for j in jobs if j not in keep]
+        jobs = keep + rnd.sample(rest, max(0, 900 - len(keep)))
     results = props.replay_jobs(scratch, jobs)
     race_reports, race_jobs = [], 0
     if not quick:
@@ -122,7 +129,16 @@ def check(pid, tier, scratch, replay):
         mine = {k.split(':')[0] for k in ks} & set(KINDS)
         if not mine:
             continue
-        k = next((k for k in known if mine <= set(k.get('kinds', []))), None)
+        def fits(k):
+            if not mine <= set(k.get('kinds', [])):
+                return False
+            cl = k.get('classifier', {})
+            if 'api' in cl and job['opt'].get('api') != cl['api']:
+                return False
+            if 'got_regex' in cl and not all(re.search(cl['got_regex'], d.get('got', '')) for d in (res.get('diffs') or [])):
+                return False
+            return True
+        k = next((k for k in known if fits(k)), None)
         if k:
             hits.setdefault(k['id'], []).append((job, res))
         else:
